@@ -257,3 +257,8 @@ func TestSub_parsed(t *testing.T)     { vk.RunRapid(t, subParsed) }
 func TestSub_structured(t *testing.T) { vk.RunRapid(t, subStructured) }
 
 func TestReplay(t *testing.T) { vk.Replay(t) }
+
+// native coverage-guided fuzzing over the same generator and oracle (thorough tier)
+var subFuzz = vk.Register(&vk.Sub[Case]{Name: "structured_fuzz", Gen: gen("structured"), Check: check})
+
+func FuzzSub_structured_fuzz(f *testing.F) { vk.RunFuzz(f, subFuzz) }
